@@ -1749,10 +1749,9 @@ var safeSet = [utf8.RuneSelf]bool{
 }
 
 func (s *PrintCtx) appendBytes(z []byte) {
-	_, err := s.Write(z)
-	if err != nil {
-		hintInternal(err, "PrintCtx: appendBytes failed")
-	}
+	// a byte slice is arbitrary data: quote and escape it like a string, so
+	// that it can neither break the line nor inject terminal escapes
+	s.appendQuotedString(string(z))
 }
 
 func (s *PrintCtx) appendStringSlice(val []string) {
